@@ -118,7 +118,7 @@ Definition temp_col_name (f : frame) (prefix : bytes) : outcome bytes :=
      | O => Panic
      | S k' => let name := prefix ++ temp_suffix ++ itoa i in
                if contains f name then go k' (S i) else Ok name
-     end) 10000%nat 0%nat.
+     end) (N.to_nat 10000) 0%nat.
 
 Definition p_const : bytes := bs 5 0x636f6e7374.
 Definition p_unary : bytes := bs 5 0x756e617279.
